@@ -93,7 +93,7 @@ def judge(tree):
     return out
 
 
-def check_src(res, cid, src, std, cname, opts, tag):
+def check_src(res, cid, src, std, cname, opts, tag, before=()):
     res.evals += 1
     hk = h64(src, std, cname)
     res.states.add(hk)
@@ -108,29 +108,41 @@ def check_src(res, cid, src, std, cname, opts, tag):
     vs = judge(o.tree)
     res.outcomes["faithful" if not vs else "unfaithful"] += 1
     for kind, detail in vs:
-        res.violation("C18|%s" % kind, "%s std=%s config=%s\n%s\n--- source:\n%s" % (cid, std, cname, detail, src), {"src": src, "std": std, "config": cname, "cid": cid}, cost=len(src))
+        res.violation("C18|%s" % kind, "%s std=%s config=%s\n%s\n--- source:\n%s" % (cid, std, cname, detail, src), {"src": src, "std": std, "config": cname, "cid": cid, "before": [list(x) for x in before]}, cost=len(src) + 10 * len(before))
 
 
 def check_case(res, cid, prog, tag):
     plain = G.render(prog)
     com = scenarios.with_comments(prog)
+    # the trees of ONE source under every standard / reader configuration are
+    # copied one after the other in one process (copying must not remember
+    # anything): the sequence so far is part of a violation's replay case
+    seq = []
     for std in G.stds_for(prog):
         for cname, opts in CONFIGS:
-            check_src(res, cid, plain if cname == "ic" else com, std, cname, opts, tag)
+            src = plain if cname == "ic" else com
+            check_src(res, cid, src, std, cname, opts, tag, before=seq)
+            seq.append((src, std, cname))
 
 
 def run(task):
     if task[0] == "X":
         res = Result()
+        seq = []
         for std in ("f2003", "f2008"):
             for cname, opts in CONFIGS:
-                check_src(res, "X/%d/" % task[1], EXTRA[task[1]], std, cname, opts, "X")
+                check_src(res, "X/%d/" % task[1], EXTRA[task[1]], std, cname, opts, "X", before=seq)
+                seq.append((EXTRA[task[1]], std, cname))
         res.sample({"case": "X/%d" % task[1], "source": EXTRA[task[1]]})
         return res
     return scenarios.run_task(task, check_case)
 
 
 def replay(case):
+    for src, std, cname in case.get("before", []):
+        o = try_parse(src, std, **dict(CONFIGS)[cname])
+        if o.ok:
+            judge(o.tree)
     opts = dict(CONFIGS)[case["config"]]
     o = try_parse(case["src"], case["std"], **opts)
     if not o.ok:
